@@ -80,7 +80,8 @@ pub fn check_run(ctx: &Ctx, file: &GameFile, path: &str, args: &[String]) -> boo
 
 pub fn files_of(name: &str, tree: &crate::tree::Tree, thorough: bool) -> Vec<GameFile> {
     let mut res = Vec::new();
-    if let Some(file) = json_file(name, tree) {
+    // (the JSON text in one of three layouts; two of them stored under an unknown extension)
+    if let Some(file) = crate::cli::json_file_layout(name, tree, name.len()) {
         res.push(file);
     }
     let styles = EfgStyle::all();
@@ -98,7 +99,7 @@ pub fn run(ctx: &Ctx) -> i32 {
     let mut files: Vec<(GameFile, String)> = Vec::new();
     for (name, tree) in &games {
         for file in files_of(name, tree, ctx.thorough()) {
-            let path = write_file(&dir, &format!("{}-{}.{}", files.len(), sanitize(&file.label), file.format), &file.text);
+            let path = write_file(&dir, &format!("{}-{}.{}", files.len(), sanitize(&file.label), crate::cli::file_ext(&file)), &file.text);
             files.push((file, path));
         }
     }
@@ -169,7 +170,7 @@ pub fn replay(ctx: &Ctx, val: &Value) -> i32 {
     let dir = work_dir("C15-replay");
     let format: &'static str = if val["format"].as_str() == Some("json") { "json" } else { "efg" };
     let file = GameFile { label: val["label"].as_str().unwrap_or("replay").to_string(), text: val["file"].as_str().unwrap().to_string(), format, model: crate::tree::Tree::from_replay(&val["model"]), sum: val["sum"].as_f64().unwrap_or(0.0), canonical_order: false };
-    let path = write_file(&dir, &format!("replay.{}", format), &file.text);
+    let path = write_file(&dir, &format!("replay.{}", crate::cli::file_ext(&file)), &file.text);
     let args: Vec<String> = val["args"].as_array().unwrap().iter().map(|a| a.as_str().unwrap().to_string()).collect();
     let ok = check_run(ctx, &file, &path, &args);
     let _ = std::fs::remove_dir_all(&dir);
